@@ -55,6 +55,13 @@ def o5(E):
             finding='C15-F1', region=(extra == ['self.connect']))
 
 
+def o6(E):
+    """connect() is the one thing that runs outside the lock (O5 / C15-F1).  It may create the connection, but it must not consume input: a
+    read there takes bytes of the reply another thread is in the middle of receiving under the lock"""
+    for cls in ('ModbusTcpClient', 'ModbusTlsClient', 'ModbusUdpClient', 'ModbusSerialClient'):
+        own(E, 'O6:connect-outside-the-lock-never-reads-from-the-transport[%s]' % cls, O.no_transport_reads('pymodbus.client.sync.%s.connect' % cls))
+
+
 def directed_race():
     """directed two-thread schedule confirming O5 on the real code: thread B passes connect()'s `if self.socket` test, is
     pre-empted before it stores its new socket; thread A connects, takes the lock and sends; B stores its socket; A then
@@ -125,7 +132,7 @@ def o5_witness(E):
 
 def get_units():
     us = []
-    for nm, fn in (('O1', o1), ('O2', o2), ('O3', o3), ('O4', o4), ('O5', o5), ('O5.witness', o5_witness)):
+    for nm, fn in (('O1', o1), ('O2', o2), ('O3', o3), ('O4', o4), ('O5', o5), ('O5.witness', o5_witness), ('O6', o6)):
         u = Unit('%s/%s' % (PROP, nm), fn, [PROP], functions=[TM + '.execute'])
         u.backend = 'ownership'
         us.append(u)
